@@ -25,6 +25,7 @@ var c10bases = []string{
 var c10alpha = []Op{
 	{K: "calc"},
 	{K: "edit", S: "qty", S2: "3", I: 0},
+	{K: "edit", S: "live-qty"},
 	{K: "edit", S: "invalid"},
 	{K: "edit", S: "rmcode"},
 	{K: "sign", I: 0},
@@ -128,7 +129,7 @@ func init() {
 		ID:    "C10",
 		Level: "exploration",
 		Rule: "histories of envelope operations (insert, calculate, content edits, sign with valid / public-only / empty keys, unsign, stamps, links, tags, meta, notes, identifier change, validate, verify, persist, crash-restart, lost write, re-encode, damaged signature list on disk) checked step by step against an executable reference model; " +
-			"check 'enum' enumerates every sequence over a 14-operation alphabet up to length 3 (quick) / 4 (thorough), and in thorough every sequence of length 5 and 6 over an 8-operation core alphabet, on three base documents (two invoices, one order), check 'life' draws longer seeded histories over 12 base documents; a case is one history, distinct by its operation sequence and base document, non-trivial when it contains at least one state-changing operation followed by an observation",
+			"check 'enum' enumerates every sequence over a 15-operation alphabet up to length 3 (quick) / 4 (thorough), and in thorough every sequence of length 5 and 6 over an 8-operation core alphabet, on three base documents (two invoices, one order), check 'life' draws longer seeded histories over 12 base documents; a case is one history, distinct by its operation sequence and base document, non-trivial when it contains at least one state-changing operation followed by an observation",
 		Assumptions: []string{
 			"which documents are structurally valid is asked of the implementation on a fresh parse of the same bytes; the model predicts how that fact, the digest fact, the signature list and the header combine over a history",
 			"after a signing that fails before a signature is appended, both 'signatures unchanged' and 'unsigned' are accepted (the statement is silent)",
@@ -204,7 +205,7 @@ func planC10life(c *Ctx, run int64) *Plan {
 		case v < wCalc:
 			op = Op{K: Pick(r, []string{"calc", "calc", "calc", "insert"})}
 		case v < wCalc+wEdit:
-			op = Op{K: "edit", S: Pick(r, []string{"qty", "note", "rmcode", "setcode", "invalid", "fixinvalid", "price", "custname"}), I: int64(r.IntN(4))}
+			op = Op{K: "edit", S: Pick(r, []string{"qty", "note", "rmcode", "setcode", "invalid", "fixinvalid", "price", "custname", "live-qty", "live-note"}), I: int64(r.IntN(4))}
 			switch op.S {
 			case "qty":
 				op.S2 = Pick(r, []string{"2", "3", "0.5"})
@@ -335,6 +336,9 @@ func execLife(x *X, base string, ops []Op, or lifeOracles) {
 		case "edit":
 			if lifeEdit(s.env, op) {
 				changed = true
+				if strings.HasPrefix(op.S, "live-") {
+					s.m.liveEdited = true
+				}
 			} else {
 				note = "noop"
 			}
